@@ -102,3 +102,25 @@ Example cor_read_fixed :
   exists r, read_run (Some ext_text) [] [] true None (Some cor_text) None = ROk (RunOk r) /\
             option_map m_vals (rr_cor r) = Some [[CNum 1]].
 Proof. eexists. split; vm_compute; reflexivity. Qed.
+
+(* C20-FORTRAN-EXP3 (open): NONMEM prints a value below 1e-99 without the E (1.00000-100).  pandas does not read that
+   token as a number, so the whole column is a string column: a perfectly ordinary number of the same column
+   (1.20000E-01 in the second record) is NOT read as written — number_as_written / parse_render_body fail exactly on
+   the conjunct col_homogeneous of wbody_ok; every other conjunct holds. *)
+Definition f3_table : wtable :=
+  mkWTable None [s_ITERATION; s_THETA1]
+    [[WInt false [48]; WStr [49;46;48;48;48;48;48;45;49;48;48]];
+     [WInt false [53]; WSci false [49;50;48;48;48;48] true [48;49]]]
+    false 0 true.
+
+Theorem fortran_exp3_refuted :
+  forallb (col_homogeneous (w_rows f3_table)) (seq 0 2) = false /\
+  forallb (fun r => Nat.eqb (length r) 2 && row_ok false r) (w_rows f3_table) = true /\
+  labels_ok (w_labels f3_table) = true /\
+  exists f, read_frame (render_body f3_table) = ROk f /\
+            nth 1 (snd (nth 1 (f_rows f) (0%nat, []))) CNaN = CStr [49;46;50;48;48;48;48;69;45;48;49] /\
+            wcell (WSci false [49;50;48;48;48;48] true [48;49]) = CNum (3 # 25).
+Proof.
+  split; [vm_compute; reflexivity|]. split; [vm_compute; reflexivity|]. split; [vm_compute; reflexivity|].
+  eexists. split; [vm_compute; reflexivity|]. split; vm_compute; reflexivity.
+Qed.
